@@ -717,8 +717,16 @@ def rule_broker(prog):
                 continue
             n_notes += 1
             guarded = any(p.get("k") == "If" and is_flag(p["cond"]) and _contains(p["then"], n) for p in parents)
-            out.add("document::broker", "diagnostics are published only if the client announced support", guarded, c.loc(n["sp"]),
-                    "`notify` must be inside `if <the broker's diagnostics flag>`", ("diag",))
+            out.add("document::broker", "diagnostics are published only if the client announced support", guarded or any(
+                        p.get("k") == "If" and _contains(p["then"], n) and any(is_flag(x) for x in hir.nodes(p["cond"])) for p in parents),
+                    c.loc(n["sp"]), "`notify` must be inside `if <the broker's diagnostics flag>`", ("diag",))
+            # ... and on nothing else: every Open/Change of a supporting client is followed by its diagnostics
+            extra = [p for p in parents if p.get("k") in ("If", "Match", "Arm") and _contains(p.get("then") or p.get("body") or {}, n)
+                     and p.get("k") == "If" and not is_flag(p["cond"])]
+            out.add("document::broker", "for a supporting client publishing depends on nothing but the flag", not extra,
+                    c.loc((extra[0] if extra else n)["sp"]),
+                    "the publishDiagnostics call is additionally guarded by another condition: the diagnostics of some edit are never "
+                    "sent (the last ones published no longer describe the document, or depend on how messages were batched)", ("diag",))
             ok = from_broker(x) or hir.only_called_from(prog, x["p"], from_broker, cmap)
             out.add("document::notify", "is called only by the broker", ok, c.loc(n["sp"]), "called from %s" % x["d"], ("diag",))
     if n_notes == 0:
